@@ -30,7 +30,12 @@ def run(rep, tier, seed):
         pd.direction = d
         # bare functions
         for j in range(2):
-            rule = gen_rule(rnd, pd, randbits(rnd, rnd.randint(1, 16)), kinds=KINDS, direction=rnd.choice([DI.BIDIRECTIONAL, d]))
+            if j == 1 and i % 3 == 0:
+                # descriptors of the other direction interleaved with the ones in use, also in front of computed fields
+                from p_c18 import dir_rule, KINDS_C, KINDS as KINDS_PLAIN
+                rule, _ = dir_rule(rnd, pd, d, kinds=KINDS_C if stack in ('IPv6-UDP-CoAP', 'IPv4-UDP-CoAP', 'SCTP', 'IPv6', 'IPv4') else KINDS_PLAIN)
+            else:
+                rule = gen_rule(rnd, pd, randbits(rnd, rnd.randint(1, 16)), kinds=KINDS, direction=rnd.choice([DI.BIDIRECTIONAL, d]))
             m = case_match(b, pd, [rule], klass='match:' + stack)
             if m[1] != (0,):
                 continue
